@@ -296,6 +296,7 @@ class PotentialElectrode(BaseElectrode):
             "Potential Electrodes": self.uid,
         }
 
+        self._current_electrodes = current_electrodes
         self.metadata = metadata
         current_electrodes.metadata = metadata
 
@@ -377,6 +378,7 @@ class CurrentElectrode(BaseElectrode):
             "Potential Electrodes": potential_electrodes.uid,
         }
 
+        self._potential_electrodes = potential_electrodes
         self.metadata = metadata
         potential_electrodes.metadata = metadata
 
